@@ -186,7 +186,71 @@ func (t *fiatTr) fn(fd *ast.FuncDecl) {
 		fmt.Fprintf(&t.sb, "  let %s := %s\n", v, rhs)
 		nlet++
 	}
+	// Aliasing discipline: the Go callers pass the same element as out1 and arg1/arg2 (t3.Mul(t3, t4)); the
+	// let-chain is value-level, so it is faithful only if no slot of a parameter array is read after the same
+	// slot of the output has been stored (Go arrays alias as wholes) and the output is never read. A function
+	// that breaks this is refused.
+	params := map[string]bool{}
+	for _, f := range fd.Type.Params.List {
+		for _, n := range f.Names {
+			params[n.Name] = true
+		}
+	}
+	stored := map[string]bool{} // output slots already stored ("*" for a scalar output)
+	slotOf := func(ix *ast.IndexExpr) string {
+		if bl, ok := ix.Index.(*ast.BasicLit); ok {
+			return bl.Value
+		}
+		return "?"
+	}
+	readsParam := func(pos token.Pos, es []ast.Expr) {
+		for _, e := range es {
+			ast.Inspect(e, func(n ast.Node) bool {
+				var base ast.Expr
+				slot := "*"
+				switch x := n.(type) {
+				case *ast.IndexExpr:
+					base = x.X
+					slot = slotOf(x)
+				case *ast.StarExpr:
+					base = x.X
+				default:
+					return true
+				}
+				if id, ok := base.(*ast.Ident); ok && params[id.Name] {
+					if id.Name == out {
+						t.fail(pos, "function %s reads its output %s (aliasing)", name, out)
+					}
+					if stored[slot] || (slot == "?" && len(stored) > 0) || stored["?"] {
+						t.fail(pos, "function %s reads %s[%s] after the store to %s[%s] (aliasing)", name, id.Name, slot, out, slot)
+					}
+				}
+				return true
+			})
+		}
+	}
 	for _, st := range fd.Body.List {
+		switch s := st.(type) {
+		case *ast.AssignStmt:
+			readsParam(s.Pos(), s.Rhs)
+			if len(s.Lhs) == 1 {
+				switch l := s.Lhs[0].(type) {
+				case *ast.IndexExpr:
+					stored[slotOf(l)] = true
+				case *ast.StarExpr:
+					stored["*"] = true
+				}
+			}
+		case *ast.ExprStmt:
+			if call, ok := s.X.(*ast.CallExpr); ok && len(call.Args) > 0 {
+				readsParam(s.Pos(), call.Args[1:])
+				if u, ok := call.Args[0].(*ast.UnaryExpr); ok {
+					if l, ok := u.X.(*ast.IndexExpr); ok {
+						stored[slotOf(l)] = true
+					}
+				}
+			}
+		}
 		switch s := st.(type) {
 		case *ast.DeclStmt:
 			continue // var x uint64
